@@ -67,6 +67,20 @@ def _union_operand(idx, body):
 _ID = {"k": "fn", "ps": [{"n": "a", "ty": T("any")}], "r": T("any"), "body": [{"k": "ret", "e": _V("a")}]}
 _TRUE = {"k": "fn", "ps": [{"n": "a", "ty": T("any")}], "r": T("bool"), "body": [{"k": "ret", "e": lit({"k": "bool", "v": True})}]}
 _ADD = {"k": "fn", "ps": [{"n": "a", "ty": T("any")}, {"n": "b", "ty": T("any")}], "r": T("any"), "body": [{"k": "ret", "e": _V("b")}]}
+def _tuple_lengths(idx, elem, lens, index):
+    """t.N on a union of tuple types of three or more different lengths: the bound is the shortest member, whichever
+    order the members are met in (the verdict must be the same at every parse)"""
+    ms = [T("tuple", es=[T(elem)] * n) for n in lens]
+    return {"id": "det-tuple-index-union-lengths-%d" % idx, "prog": [
+        {"k": "fndecl", "n": "f", "ps": [{"n": "t", "ty": T("multi", ms=ms)}], "r": T("any"),
+         "body": [{"k": "ret", "e": {"k": "tupat", "e": _V("t"), "i": index}}]},
+        I(1)]}
+
+
+EXTRA += [_tuple_lengths(i, elem, lens, index) for i, (elem, lens, index) in enumerate([
+    ("int", (2, 3, 4), 2), ("float", (2, 3, 4), 2), ("string", (2, 4, 5), 3), ("bool", (2, 4, 5), 2), ("int", (3, 5, 2, 4), 2),
+    ("float", (2, 3, 4, 5, 6), 2), ("int", (2, 3, 4), 1), ("string", (3, 4, 5), 3), ("any", (2, 3, 4), 2), ("int", (4, 2, 3), 3)])]
+
 EXTRA += [
     # reducers over an iterator whose element type is `!`: every accepted element type fits, the choice must not
     # depend on a set's iteration order (process-wide state: the outcome must be the same in every process)
